@@ -112,3 +112,12 @@ Proof. unfold blen. lia. Qed.
 Lemma put32_get32_top x : x < 4294967296 ->
   get32 (x / 16777216) ((x / 65536) mod 256) ((x / 256) mod 256) (x mod 256) = x.
 Proof. unfold get32. intros. lia. Qed.
+Lemma be32_get32' a b c d : a < 256 -> b < 256 -> c < 256 -> d < 256 ->
+  [get32 a b c d / 16777216; (get32 a b c d / 65536) mod 256; (get32 a b c d / 256) mod 256; get32 a b c d mod 256]
+  = [a; b; c; d].
+Proof. unfold get32. intros. repeat f_equal; lia. Qed.
+Lemma skipn_skipn' {A} (n m : nat) (l : list A) : skipn n (skipn m l) = skipn (m + n) l.
+Proof.
+  revert l; induction m as [|m IH]; intros l; [reflexivity|].
+  destruct l; [rewrite !skipn_nil; reflexivity|]. cbn [skipn Nat.add]. apply IH.
+Qed.
